@@ -66,7 +66,7 @@ if harm:
           "Full Lean side (T1/T3 regenerated, every tie and theorem re-checked) plus correspondence and oracles, except the HN rows: "
           "correspondence and oracles only (`--skip-lean`). For *all* rewrites, including HN, the Lean side was also re-run on its "
           "own after the last change to the tie tactics (T3 + `lake build`, listing the declarations `maybe` skipped): no registered "
-          "theorem is lost for any of them.", "",
+          "theorem is lost for any of them except HS5, HS9 and HS10 (DESIGN.md §9.5: three rewrites beyond the tie tactics, reported as `nfi` by C20 resp. C08; HS1-HS12 were otherwise only run on the Lean side).", "",
           "| rewrite | " + " | ".join(p[1:] for p in props) + " |", "|---|" + "---|" * len(props)]
     for sid in sorted(harm):
         L.append(f"| {sid.replace('harmless/', '')} | " + " | ".join(cell(harm[sid].get(p)) for p in props) + " |")
